@@ -65,6 +65,7 @@ mod verif_cmap_writer {
     #[kani::unwind(5)]
     fn format4_single_mapping_fffe() { single(0xFFFE) }
     // NOTE: a harness with two adjacent pairs (two glyph-array segments, where the second idRangeOffset must skip the first
-    // segment's ids) exhausted CBMC's memory (16 GB) even with three of the four glyph ids fixed, and was removed:
+    // segment's ids) exhausted CBMC's memory (16 GB) even with three of the four glyph ids fixed, and a fully concrete 9-pair version did not finish in 1000 s
+    // (unwinding undetermined); both were removed:
     // multi-segment glyph-id-array layouts of the writer are NOT covered.
 }
